@@ -272,3 +272,88 @@ func addEntryTests(c *core.Ctx, a *locks.Analysis, flag *types.Var) bool {
 	}
 	return true
 }
+
+// (7) ONCE — a segment that rotates while a search is being planned is legitimately present in both segment
+// snapshots, so the searcher can hold two requests for the same segment key; what returns every event once is the
+// searcher's record of the blocks it has handed out.  In Searcher.getFilteredBlocks every block that is added to the
+// batch is recorded in processedBlocks before the loop moves on: no path from the append to the next iteration or to
+// the return avoids the insertion into the per-segment block set.
+func checkHandedOutOnce(c *core.Ctx, r *core.Report) {
+	fn := c.Fn(pkgProcessor, "Searcher.getFilteredBlocks")
+	pbF := c.Field(pkgProcessor, "Searcher.processedBlocks")
+	fromProcessed := func(m ssa.Value) bool {
+		// processedBlocks[k] (a Lookup of the field's map), possibly through a phi / extract
+		seen := map[ssa.Value]bool{}
+		var walk func(v ssa.Value, d int) bool
+		walk = func(v ssa.Value, d int) bool {
+			if d > 5 || seen[v] {
+				return false
+			}
+			seen[v] = true
+			switch x := v.(type) {
+			case *ssa.Lookup:
+				return walk(x.X, d+1)
+			case *ssa.Extract:
+				return walk(x.Tuple, d+1)
+			case *ssa.Phi:
+				for _, e := range x.Edges {
+					if walk(e, d+1) {
+						return true
+					}
+				}
+			case *ssa.UnOp:
+				if fa, ok := x.X.(*ssa.FieldAddr); ok && core.FieldOfAddr(fa) == pbF {
+					return true
+				}
+			case *ssa.MakeMap:
+				// a fresh inner map that is stored into processedBlocks
+				if x.Referrers() != nil {
+					for _, u := range *x.Referrers() {
+						if mu, ok := u.(*ssa.MapUpdate); ok && mu.Value == ssa.Value(x) && walk(mu.Map, d+1) {
+							return true
+						}
+					}
+				}
+			}
+			return false
+		}
+		return walk(m, 0)
+	}
+	loops := core.Loops(fn)
+	n := 0
+	for _, ci := range core.CallsIn(fn) {
+		bi, ok := ci.Common().Value.(*ssa.Builtin)
+		if !ok || bi.Name() != "append" {
+			continue
+		}
+		lp := core.InnermostLoop(loops, ci.Block())
+		if lp == nil {
+			continue
+		}
+		n++
+		var leak ssa.Instruction
+		core.WalkForwardEdges(fn, ci, func(in ssa.Instruction) bool {
+			if mu, ok := in.(*ssa.MapUpdate); ok && fromProcessed(mu.Map) {
+				if _, inner := mu.Value.Type().Underlying().(*types.Map); !inner {
+					return false
+				}
+			}
+			if ret, ok := in.(*ssa.Return); ok && leak == nil {
+				leak = ret
+			}
+			return true
+		}, func(from, to *ssa.BasicBlock) bool {
+			if to == lp.Header {
+				if leak == nil {
+					leak = from.Instrs[len(from.Instrs)-1]
+				}
+				return false
+			}
+			return true
+		})
+		r.Check(leak == nil, "PAIR", fmt.Sprintf("%s:handed-out-block#%d-is-recorded", shortFn(fn), n), c.Pos(ci.Pos()),
+			"every path from the append to the next iteration records the block in processedBlocks",
+			"a block is added to the batch on a path that does not record it in processedBlocks: when a rotating segment is present in both snapshots the second request for the same segment key hands the block out again and every event of the block is returned twice")
+	}
+	r.Floor("PAIR", "blocks handed out by getFilteredBlocks", n, 1)
+}
